@@ -26,7 +26,7 @@ theorem c03_copy_in_bounds (e : GdEntry) (hs : e.Safe) (ds : Nat) (p : Bytes)
     right
     rw [hc] at hs h
     simp only [GdCheck.accepts, Option.some.injEq] at h
-    exact hs ds (by simpa using h)
+    exact hs.2 ds (by simpa using h)
   | valid main item max fo fw sg =>
     right
     rw [hc] at hs h
@@ -72,6 +72,17 @@ theorem c03_size_is_required (e : GdEntry) (hs : e.Safe) (ds : Nat) (p : Bytes)
 theorem c03_unknown_id_error (tbl : List GdEntry) (c ds : Nat) (p : Bytes)
     (h : tbl.find? (fun e => e.callId == c) = none) : getdataResult tbl c ds p = some (-2) := by
   simp [getdataResult, h]
+
+/-- **C03.a2'** a call whose size rule is one fixed size is accepted only with a payload of exactly the size of the structure
+    its handler receives (the allocation): the size test and the structure cannot drift apart -/
+theorem c03_single_size_is_structure (e : GdEntry) (hs : e.Safe) (n ds : Nat) (p : Bytes) (hc : e.check = .exact [n])
+    (h : e.check.accepts ds p = some true) : ds = e.alloc := by
+  unfold GdEntry.Safe at hs
+  rw [hc] at hs h
+  simp only [GdCheck.accepts, Option.some.injEq] at h
+  have h1 : ds = n := by simpa using h
+  have h2 : e.alloc = n := by simpa using hs.1
+  omega
 
 /-- **C03.a4** a packet whose length is none of the fixed sizes its call id requires yields
     DATA_ERROR, whatever it contains -/
